@@ -41,6 +41,7 @@ class Unit:
         self.unroll = dict(unroll or {})
         self.bounded = bounded        # uses bounded unrolling: never counted as proved
         self.note = note
+        self.concrete_only = False    # True: bounded stand-in only (executable twin over seeded inputs); nothing is discharged, nothing counted as proved
         self.shards = 1               # >1: the driver explores the alternatives of wide branches (constant tables) in parallel
 
     def config(self, exclude=()):
@@ -170,6 +171,11 @@ def run_symbolic(unit, z3_ms=10000, cvc5_ms=20000, both=False, exclude_contracts
     out = {'unit': unit.name, 'props': unit.props, 'level': unit.level, 'kind': unit.kind, 'paths': 0, 'obligations': [],
            'out_of_reach': None, 'error': None, 'functions': {}, 'assumed_contracts': [], 'unknown_calls': [],
            'bounded': unit.bounded, 'covers': [], 'lemmas_used': []}
+    if getattr(unit, 'concrete_only', False):
+        out['bounded'] = True
+        out['secs'] = 0.0
+        out['solver_secs'] = 0.0
+        return out
     try:
         res = engine.explore(unit, lambda st: SymE(st, cfg), shard=shard)
         out['paths'] = res.paths
